@@ -88,6 +88,9 @@ def templates(tier, seed):
             ts.append(Template(f"frame/{'+'.join(kinds)}/N={N}", t_inf, ("frame", kinds, N, True)))
         for kind in ("int", "float", "str"):
             ts.append(Template(f"series/{kind}/N={N}", t_inf, ("series", [kind], N, False)))
+    for N in ((1, 2) if tier == "quick" else (1, 2, 3)):
+        for shape in ("mi", "mi_filtered"):
+            ts.append(Template(f"{shape}/float/N={N}", t_inf, (shape, ["float"], N, True)))
     ts.append(Template("LEMMA/monotone", lemma, ("monotone",)))
     ts.append(Template("LEMMA/reflexive", lemma, ("reflexive",)))
     return ts
